@@ -57,6 +57,38 @@ def _note_ok(e, fname, tag):
         f"note lacks the kwargs of the failing invocation {tag}: {notes[:300]!r}"
 
 
+def _leaves(v: str) -> list[str]:
+    """Top-level leaves of a frozen nested list "[a,[b,c]]" (leaves may themselves contain brackets/commas in calls)."""
+    out, depth_sq, depth_par, cur = [], 0, 0, ""
+    for ch in v:
+        if ch == "(":
+            depth_par += 1
+        elif ch == ")":
+            depth_par -= 1
+        if depth_par == 0 and ch == "[" and (cur == "" or cur.endswith(",")) and not cur.strip(","):
+            depth_sq += 1
+            continue
+        if depth_par == 0 and ch == "]" and depth_sq > 0 and _balanced(cur):
+            if cur:
+                out.append(cur)
+            cur = ""
+            depth_sq -= 1
+            continue
+        if depth_par == 0 and ch == "," and _balanced(cur):
+            if cur:
+                out.append(cur)
+            cur = ""
+            continue
+        cur += ch
+    if cur:
+        out.append(cur)
+    return [x for x in out if x]
+
+
+def _balanced(t: str) -> bool:
+    return t.count("[") == t.count("]") and t.count("(") == t.count(")")
+
+
 def _values_in(inner, notes):
     # split top-level "k=v" pairs (values may contain nested parentheses / commas)
     depth, cur, parts = 0, "", []
@@ -74,7 +106,14 @@ def _values_in(inner, notes):
     for kv in parts:
         k, v = kv.split("=", 1)
         if v.startswith("["):
-            continue  # arrays are printed by numpy's repr; only scalar (string) arguments are matched literally
+            # arrays are printed by numpy's repr: every element the invocation received must be readable in the note
+            # (small arrays are not abbreviated), and the note must show values, not storage objects
+            if "object at 0x" in notes:
+                return False
+            leaves = [x for x in _leaves(v) if x not in ("None", "<masked>")]
+            if len(leaves) <= 50 and not all(x in notes for x in leaves):
+                return False
+            continue
         # (the note uses the pipeline-level parameter names, the tag the function's own argument names)
         if f"={v!r}" not in notes and f"={v}" not in notes:
             return False
